@@ -1,0 +1,28 @@
+//go:build verif
+
+package cache
+
+// Contracts for /verif (contract-based deductive verification of this package).
+// Comment-only file: only the lines starting with "//@" are read, by /verif/bin/govc.
+
+//@ func (*cacheFile).IsDone
+//@   ensures result == f.Done
+//@   modifies nothing
+
+//@ func (*JSON).Get
+//@   ensures (result != nil ==> typeis(result, *cacheFile)) && (has(j.Files, key) ==> as(result, *cacheFile) == j.Files[key] && (j.Files[key] != nil ==> result != nil)) && (!has(j.Files, key) ==> result == nil)
+//@   modifies nothing
+
+// ---------------------------------------------------------------- done means: this version was confirmed (C02 C17)
+
+//@ func (*JSON).add
+//@   on return assert done-means-this-version: old(has(j.Files, file.GetName())) && j.Files[file.GetName()].Done ==> old(j.Files[file.GetName()].Done) && old(j.Files[file.GetName()].Size) == file.GetSize() && old(j.Files[file.GetName()].Time) == file.GetTime() && old(j.Files[file.GetName()].Hash) == file.GetHash()
+//@   on return assert new-entry-is-not-done: !old(has(j.Files, file.GetName())) ==> has(j.Files, file.GetName()) && !j.Files[file.GetName()].Done
+//@   on return assert entry-carries-the-file: has(j.Files, file.GetName()) && j.Files[file.GetName()].Size == file.GetSize() && j.Files[file.GetName()].Time == file.GetTime() && j.Files[file.GetName()].Hash == file.GetHash()
+
+//@ func (*JSON).Done
+//@   on return assert marks-only-key: forall(r, obj(r, *cacheFile).Done != old(obj(r, *cacheFile).Done) ==> old(has(j.Files, key)) && obj(r, *cacheFile) == old(j.Files[key]))
+//@   before call whileLocked assert callback-once-under-lock: exclusive(&j.mutex) && arg0 == f && as(f, *cacheFile).Done && !old(as(f, *cacheFile).Done) && ncalls(whileLocked) == 0
+
+//@ func (*JSON).Remove
+//@   on return assert removes-only-key: (old(has(j.Files, key)) && old(j.Files[key]) != nil ==> !has(j.Files, key)) && forall(r, obj(r, *cacheFile).Done == old(obj(r, *cacheFile).Done))
